@@ -129,6 +129,16 @@ def r1_relations(prog, rep: Report):
 # ---------------------------------------------------------------------------------------------- R2
 def _eq_calls(f: Func) -> List[ast.Call]:
     out = []
+    # a parameter that this very function stores into self.eq_relation (and never re-binds) names the same relation
+    same = set()
+    for n in walk_own(f.node):
+        if isinstance(n, ast.Assign) and len(n.targets) == 1 and dotted(n.targets[0]) == (f.self_name, "eq_relation") \
+                and isinstance(n.value, ast.Name) and n.value.id in f.params:
+            if not any(isinstance(x, ast.Name) and x.id == n.value.id and isinstance(x.ctx, (ast.Store, ast.Del)) for x in ast.walk(f.node)):
+                same.add(n.value.id)
+    for n in ast.walk(f.node):
+        if isinstance(n, ast.Call) and isinstance(n.func, ast.Name) and n.func.id in same:
+            out.append(n)
     for n in walk_own(f.node):
         if isinstance(n, ast.Call) and isinstance(n.func, ast.Attribute) and n.func.attr == "eq_relation" \
                 and isinstance(n.func.value, ast.Name) and n.func.value.id == f.self_name:
